@@ -129,6 +129,13 @@ type S struct {
 	// Adopted counts library goroutines met for the first time in a yield; Cut
 	// counts library goroutines that the end of an aborted run terminated.
 	Adopted, Cut int
+	// TimerWakes counts tasks that came back during the grace period before a
+	// deadlock verdict (real-clock timers in the library).
+	TimerWakes int
+	// SelfWakes counts token holders that came back by themselves right after
+	// the monitor had flagged them as blocked.
+	SelfWakes int
+	monBusy   atomic.Bool
 
 	// Seen, when non-nil, records which yield sites were reached (reach
 	// measure for the evidence).
@@ -332,6 +339,8 @@ func (s *S) Hook(site uint32) {
 			if !s.wokenPark() {
 				return
 			}
+		} else {
+			s.selfUnflag()
 		}
 	}
 	s.Step++
@@ -572,6 +581,65 @@ func (s *S) deadlock(st map[uint64]string) {
 	}
 }
 
+// graceForTimers is called when no task can run and a caller is blocked, before
+// that is declared a deadlock: a task blocked in a select or on a channel may be
+// waiting for a timer of the real clock (time.After, a context deadline), which
+// the simulator does not own. It polls for up to 200 ms for a task to come back.
+// (The pinned library has no timer; this only keeps a tree that introduces one
+// from being reported as deadlocked.)
+func (s *S) graceForTimers(holder *task) []int {
+	s.lock()
+	cb := s.callerBlocked()
+	s.unlock()
+	if !cb {
+		return nil
+	}
+	for i := 0; i < 200; i++ {
+		time.Sleep(time.Millisecond)
+		if holder != nil {
+			s.lock()
+			back := !holder.blocked
+			s.unlock()
+			if back {
+				return nil // the flagged holder itself came back
+			}
+		}
+		if r := s.ready(); len(r) > 0 {
+			s.TimerWakes++
+			return r
+		}
+	}
+	return nil
+}
+
+// selfUnflag is for the token holder that the monitor has just flagged as
+// blocked and that has come back by itself before the monitor moved the token
+// (only a timer of the real clock can do that: every other wake-up needs another
+// task to run first). It takes the flag back, waits for the monitor to abandon
+// the switch it had begun, and goes on as the holder.
+func (s *S) selfUnflag() {
+	if s.nBlocked.Load() == 0 {
+		return
+	}
+	s.mu.Lock()
+	t := s.tasks[s.cur]
+	mine := t.gptr == getg() && t.blocked
+	if mine {
+		t.blocked = false
+		s.nBlocked.Add(-1)
+		s.SelfWakes++
+	}
+	s.mu.Unlock()
+	if !mine {
+		return
+	}
+	s.inSched.Add(-1)
+	for s.monBusy.Load() {
+		time.Sleep(10 * time.Microsecond)
+	}
+	s.inSched.Add(1)
+}
+
 func (s *S) exitCurrent() {
 	if s.MayBlock {
 		s.progress.Add(1)
@@ -583,12 +651,17 @@ func (s *S) exitCurrent() {
 			if !s.wokenPark() {
 				return
 			}
+		} else {
+			s.selfUnflag()
 		}
 	}
 	s.lock()
 	s.tasks[s.cur].done = true
 	s.unlock()
 	r := s.ready()
+	if len(r) == 0 {
+		r = s.graceForTimers(nil)
+	}
 	s.lock()
 	anyBlocked := false
 	for _, t := range s.tasks {
@@ -721,11 +794,30 @@ func (s *S) monitor() {
 			s.nBlocked.Add(1)
 			s.BlockedN++
 		}
+		s.monBusy.Store(true)
 		s.mu.Unlock()
+		// cameBack: the holder woke up by itself (a real-clock timer) while the
+		// switch was being prepared; it keeps the token
+		cameBack := func() bool {
+			if gone || t.blocked {
+				return false
+			}
+			s.monBusy.Store(false)
+			last, idle = s.progress.Load(), 0
+			return true
+		}
 		r := s.ready() // settles tasks it may have released just before blocking
 		if len(r) == 0 {
+			r = s.graceForTimers(t)
+		}
+		if len(r) == 0 {
 			s.mu.Lock()
+			if cameBack() {
+				s.mu.Unlock()
+				continue
+			}
 			s.deadlock(st)
+			s.monBusy.Store(false)
 			s.mu.Unlock()
 			s.finish()
 			return
@@ -740,11 +832,16 @@ func (s *S) monitor() {
 			next = s.pickOther(s.cur)
 		}
 		s.mu.Lock()
+		if cameBack() {
+			s.mu.Unlock()
+			continue
+		}
 		prev := s.cur
 		s.Switches = append(s.Switches, Switch{Step: s.Step, To: next, Blocked: true, From: prev})
 		s.cur = next
 		s.progress.Add(1)
 		last, idle = s.progress.Load(), 0
+		s.monBusy.Store(false)
 		s.mu.Unlock()
 		s.tasks[next].wake <- struct{}{}
 	}
